@@ -12,14 +12,15 @@ import (
 // SyncOpts describes the synchronous suffix of a C15 case: the harness owns a virtual clock, every correct
 // replica's timer fires at now + b.WaitTime(phase, round), every message of a correct replica arrives within Delta.
 type SyncOpts struct {
-	Delta       time.Duration // upper bound of the latency of messages sent by correct replicas (and of the late arrival of old messages)
-	Rng         *rand.Rand
-	ByzMode     string                       // silent | honestlike | withhold-leader | equivocate | inflated-pacemaker | wrong-phase-commit | stale-election-cert | highqc-without-block
-	ExtraRounds uint64                       // give up once a correct replica's round exceeds RGst + ExtraRounds
-	Limit       func(res *SyncResult) uint64 // when set: computes ExtraRounds from what is known at GST (Aligned, CapRounds)
-	MaxEvents   int
-	Old         string // which undelivered pre-GST messages still arrive: "relevant" (current root, round >= the lowest current round, block gossip) | "all"
-	Hooks       *SyncHooks
+	Delta                               time.Duration // upper bound of the latency of messages sent by correct replicas (and of the late arrival of old messages)
+	Rng                                 *rand.Rand
+	ByzMode                             string                       // silent | honestlike | withhold-leader | equivocate | inflated-pacemaker | wrong-phase-commit | stale-election-cert | highqc-without-block
+	ExtraRounds                         uint64                       // give up once a correct replica's round exceeds RGst + ExtraRounds
+	ForgedBuildHeightOnlyToLockedLeader bool                         // highqc-wrong-build-height-last: only towards a leader that holds that very lock itself (see the check)
+	Limit                               func(res *SyncResult) uint64 // when set: computes ExtraRounds from what is known at GST (Aligned, CapRounds)
+	MaxEvents                           int
+	Old                                 string // which undelivered pre-GST messages still arrive: "relevant" (current root, round >= the lowest current round, block gossip) | "all"
+	Hooks                               *SyncHooks
 }
 
 // SyncHooks let a check add Byzantine behaviour to the suffix.
@@ -221,7 +222,13 @@ func (s *Sim) RunSynchronous(o SyncOpts) *SyncResult {
 				if s.R[to].Byz && o.ByzMode == "silent" {
 					continue
 				}
-				push(&event{at: now + lat(), kind: 1, i: to, id: e.ID})
+				l := lat()
+				if e.Timing < 0 {
+					l = 0
+				} else if e.Timing > 0 {
+					l = o.Delta
+				}
+				push(&event{at: now + l, kind: 1, i: to, id: e.ID})
 			}
 		}
 	}
@@ -290,7 +297,7 @@ func (s *Sim) RunSynchronous(o SyncOpts) *SyncResult {
 		if !r.Byz {
 			send(now, sent)
 			for _, e := range sent {
-				send(now, s.byzReact(o.ByzMode, e, reacted))
+				send(now, s.byzReact(o.ByzMode, e, reacted, o.ForgedBuildHeightOnlyToLockedLeader))
 			}
 			if o.Hooks != nil && o.Hooks.OnCorrectSend != nil {
 				for _, e := range sent {
@@ -308,7 +315,7 @@ func (s *Sim) RunSynchronous(o SyncOpts) *SyncResult {
 				if e.Kind != "PR" && e.Kind != "PC" && e.Kind != "CM" {
 					send(now, []*Env{e})
 				}
-			case "inflated-pacemaker", "stale-election-cert", "highqc-without-block":
+			case "inflated-pacemaker", "stale-election-cert", "highqc-without-block", "highqc-wrong-build-height-last", "highqc-wrong-build-height-first":
 				send(now, []*Env{e})
 			case "wrong-phase-commit":
 				// behaves until PRECOMMIT, then COMMIT carries the PROPOSE_VOTE certificate again
@@ -381,7 +388,7 @@ func (s *Sim) othersOf(i int) (out []int) {
 
 // byzReact: what the Byzantine validators send in reaction to a correct replica's message (suffix modes that replay
 // certificates inside new messages).
-func (s *Sim) byzReact(mode string, e *Env, done map[string]bool) (out []*Env) {
+func (s *Sim) byzReact(mode string, e *Env, done map[string]bool, onlyLockedLeader bool) (out []*Env) {
 	byz := s.Byzantine()
 	if len(byz) == 0 {
 		return nil
@@ -408,6 +415,36 @@ func (s *Sim) byzReact(mode string, e *Env, done map[string]bool) (out []*Env) {
 			}
 			return []*Env{s.CraftPropose(d, e.View.RootHeight, e.View.Round, old.Msg.Qc, s.NewProposal(d, "hijack/"+key, e.View.RootHeight), nil, nil, to)}
 		}
+	case "highqc-wrong-build-height-last", "highqc-wrong-build-height-first":
+		// every time a correct replica votes in an election, a Byzantine voter votes too: it copies the highest genuine
+		// certificate (with its block and results) as HighQc and claims a build height of 0 (the field is unsigned)
+		if e.Kind != "ELV" {
+			return nil
+		}
+		var best *lib.QuorumCertificate
+		for _, c := range s.Certs() {
+			if c.Header.Phase == ProposeVote && c.Header.Height == s.Height && s.CertPower(c) >= s.VS.MinimumMaj23 && s.FindProposal(c.BlockHash, c.ResultsHash) != nil &&
+				(best == nil || best.Header.Less(c.Header)) {
+				best = c
+			}
+		}
+		leader := s.IdxOf(e.Msg.Qc.ProposerKey)
+		if best == nil || leader < 0 || s.R[leader].Byz {
+			return nil
+		}
+		if h := s.R[leader].B.HighQC; onlyLockedLeader && mode == "highqc-wrong-build-height-last" &&
+			(h == nil || string(h.BlockHash) != string(best.BlockHash) || h.Header.Less(best.Header) || best.Header.Less(h.Header)) {
+			return nil
+		}
+		p := s.FindProposal(best.BlockHash, best.ResultsHash)
+		hq := cloneQC(best)
+		hq.Block, hq.Results = p.Block, p.Results
+		v := s.CraftVoteBuild(byz[0], s.ElectionVotePayload(e.View.RootHeight, e.View.Round, leader), hq, 0, []int{leader})
+		v.Timing = 1
+		if mode == "highqc-wrong-build-height-first" {
+			v.Timing = -1
+		}
+		return []*Env{v}
 	case "highqc-without-block":
 		// election votes are under way: a Byzantine voter reports the highest certificate it knows as HighQc, without the block
 		if e.Kind != "ELV" || done[key] {
